@@ -201,7 +201,14 @@ impl Family for Reenter {
         "reenter",
         Json::Arr(
           (0..nact)
-            .map(|_| Json::obj(vec![("on", Json::str(*rng.pick(&["next", "next", "terminal"]))), ("do", Json::str(*rng.pick(RE_ACTIONS)))]))
+            .map(|_| {
+              let on = *rng.pick(&["next", "next", "terminal", "closure", "hand-over", "tap"]);
+              // a function parameter (predicate, accumulator, key function) that emits into its own
+              // source recurses into the very computation it is part of (scan / reduce fold under
+              // their accumulator lock): not judged; leaving and subscribing again are
+              let acts: &[&str] = if on == "closure" { &["unsubscribe", "subscribe"] } else { RE_ACTIONS };
+              Json::obj(vec![("on", Json::str(on)), ("do", Json::str(*rng.pick(acts)))])
+            })
             .collect(),
         ),
       ),
@@ -222,15 +229,21 @@ impl Family for Reenter {
       Some(s) if s.len() <= 8 => s,
       _ => return RunOut::invalid(),
     };
-    let mut acts: Vec<(bool, String)> = Vec::new();
+    // where the callback re-enters: the subscriber's next / terminal callback, a closure handed
+    // to the operator (predicate, accumulator, key function, tap callback, flat_map function), or
+    // the stage that is handed an inner observable of group_by / window_with_count
+    let mut acts: Vec<(&'static str, String)> = Vec::new();
     for r in w.a("reenter") {
       let on_t = match r.s("on").as_str() {
-        "terminal" => true,
-        "next" => false,
+        "terminal" => "terminal",
+        "next" => "next",
+        "closure" => "closure",
+        "hand-over" => "hand-over",
+        "tap" => "tap",
         _ => return RunOut::invalid(),
       };
       let d = r.s("do");
-      if !RE_ACTIONS.contains(&d.as_str()) {
+      if !RE_ACTIONS.contains(&d.as_str()) || (on_t == "closure" && !["unsubscribe", "subscribe"].contains(&d.as_str())) {
         return RunOut::invalid();
       }
       acts.push((on_t, d));
@@ -246,31 +259,17 @@ impl Family for Reenter {
     let res = rt::run(cfg, move || {
       let sbj = Subj::make(&kind2).unwrap();
       let base = sbj.observable();
-      let o: Observable<'static, Val> = match op2.as_str() {
-        "none" => base,
-        "publish_ref_count" => base.ref_count().observable(),
-        "replay" => base.replay().observable(),
-        // the subject samples itself: the trigger fires with an item pending
-        "sample_self" => base.sample(base.clone()),
-        name => {
-          let ctx = pipe::Ctx::new(vec![base]);
-          let j = Json::obj(vec![("op", Json::str(name)), ("a", Json::Int(a)), ("in", Json::obj(vec![("src", Json::Int(0))]))]);
-          match pipe::build(&j, &ctx) {
-            Some(o) => o,
-            None => return,
-          }
-        }
-      };
       let sub_cell: Arc<Mutex<Option<Subscription<'static>>>> = Arc::new(Mutex::new(None));
+      let pipeline: Arc<Mutex<Option<Observable<'static, Val>>>> = Arc::new(Mutex::new(None));
       let pending = Arc::new(Mutex::new(acts));
-      let mut r = rec2;
-      {
-        let (sbj, sub_cell, o2, rec_b) = (sbj.clone(), sub_cell.clone(), o.clone(), rec_b2);
-        let extra = Arc::new(Mutex::new(Vec::new()));
-        r.hook = Some(Arc::new(move |ev: &Ev| {
+      let extra = Arc::new(Mutex::new(Vec::new()));
+      // performs the first pending action registered for that site, on the calling thread
+      let act_at: Arc<dyn Fn(&'static str) + Send + Sync> = {
+        let (sbj, sub_cell, pipeline, rec_b) = (sbj.clone(), sub_cell.clone(), pipeline.clone(), rec_b2);
+        Arc::new(move |site: &'static str| {
           let act = {
             let mut p = pending.lock().unwrap();
-            match p.iter().position(|(on_t, _)| *on_t == ev.is_terminal()) {
+            match p.iter().position(|(on, _)| *on == site) {
               Some(k) => Some(p.remove(k).1),
               None => None,
             }
@@ -286,12 +285,37 @@ impl Family for Reenter {
             Some("complete") => sbj.step(&Step::C),
             Some("error") => sbj.step(&Step::E(9)),
             Some("subscribe") => {
-              let s = rec_b.subscribe(&o2);
-              extra.lock().unwrap().push(s);
+              let o2 = pipeline.lock().unwrap().clone();
+              if let Some(o2) = o2 {
+                let s = rec_b.subscribe(&o2);
+                extra.lock().unwrap().push(s);
+              }
             }
             _ => {}
           }
-        }));
+        })
+      };
+      let o: Observable<'static, Val> = match op2.as_str() {
+        "none" => base,
+        "publish_ref_count" => base.ref_count().observable(),
+        "replay" => base.replay().observable(),
+        // the subject samples itself: the trigger fires with an item pending
+        "sample_self" => base.sample(base.clone()),
+        name => {
+          let mut ctx = pipe::Ctx::new(vec![base]);
+          ctx.closure_hook = pipe::ClosureHook(Some(act_at.clone()));
+          let j = Json::obj(vec![("op", Json::str(name)), ("a", Json::Int(a)), ("in", Json::obj(vec![("src", Json::Int(0))]))]);
+          match pipe::build(&j, &ctx) {
+            Some(o) => o,
+            None => return,
+          }
+        }
+      };
+      *pipeline.lock().unwrap() = Some(o.clone());
+      let mut r = rec2;
+      {
+        let act_at = act_at.clone();
+        r.hook = Some(Arc::new(move |ev: &Ev| act_at(if ev.is_terminal() { "terminal" } else { "next" })));
       }
       let sub = r.subscribe(&o);
       *sub_cell.lock().unwrap() = Some(sub.clone());
@@ -299,6 +323,7 @@ impl Family for Reenter {
         sbj.step(st);
       }
       *sub_cell.lock().unwrap() = None;
+      *pipeline.lock().unwrap() = None;
     });
     let blame = if op == "none" {
       match kind.as_str() {
